@@ -101,7 +101,7 @@ def norm_slice(text, a, b, table, expand_tabs, skip):
 def check_positions(text, mode="lossless"):
     ESCAPE_FIRST[0] = False
     m = _check_positions(text, mode)
-    if m and not m.startswith("skip:") and "\\" in text:
+    if m and not m.startswith("skip:") and "\\" in text and escape_first_applies(text):
         ESCAPE_FIRST[0] = True
         try:
             m2 = _check_positions(text, mode)
@@ -110,6 +110,46 @@ def check_positions(text, mode="lossless"):
         if m2 is None:
             return None
     return m
+
+
+def escape_first_applies(text):
+    """the second reading of a backslash pair followed by a newline (escaped backslash, then a
+    newline) is only a reading of text inside a string or character literal: every such pair
+    has to lie inside a STRING / CHAR_CONST token of the lexer's own output"""
+    r = lex(text)
+    if r["exc"]:
+        return False
+    table = rawpos_table(text)
+    offset_of = {lc: off for off, lc in enumerate(table[:-1])}
+    spans = []
+    for typ, ln, col, val in r["tokens"]:
+        off = offset_of.get((ln, col))
+        if off is None:
+            return False
+        spans.append((off, typ))
+    spans.sort()
+
+    def bs(j):
+        if text[j:j + 1] == "\\":
+            return 1
+        if text[j:j + 3] == "??/":
+            return 3
+        return 0
+    i = 0
+    while i < len(text):
+        a = bs(i)
+        b = bs(i + a) if a else 0
+        if a and b and text[i + a + b:i + a + b + 1] == "\n":
+            kind = None
+            for off, typ in spans:
+                if off <= i:
+                    kind = typ
+            if kind not in ("STRING", "CHAR_CONST"):
+                return False
+            i += a + b
+        else:
+            i += max(a, 1)
+    return True
 
 
 def _check_positions(text, mode="lossless"):
@@ -194,10 +234,6 @@ def op_search(task):
                 excs.setdefault(m[5:], text)
             elif m:
                 viol.append({"what": m, "text": text})
-                if len(viol) >= 20:
-                    break
-        if len(viol) >= 20:
-            break
     # structured family: a splice in either spelling inside every multi-character token
     # kind, followed by more tokens on the same line
     structured = []
@@ -227,8 +263,8 @@ def op_search(task):
         elif m:
             viol.append({"what": m, "text": text})
     viol.sort(key=lambda v: len(v["text"]))
-    return {"cases": cases, "nontrivial": len(seen), "skipped": skipped, "violations": viol[:10],
-            "exceptions": excs,
+    return {"cases": cases, "nontrivial": len(seen), "skipped": skipped, "violations": viol[:3000],
+            "total_violations": len(viol), "exceptions": excs,
             "bound": f"all strings of 1..{maxlen} lexemes over {alphabet!r}, plus {task.get('random', 300)} seeded "
                      "strings of 5..14 lexemes, plus a structured family (splice in either spelling inside every "
                      "multi-character token kind x 4 continuations x 3 prefixes)"}
